@@ -81,10 +81,10 @@ Definition ec_quit_t (now : Z) (wr isx all bang : bool) (lk : links) (a : parg) 
   if wr then
     let '(st, bufs1, fs', r) := ec_write_t now isx bang None lk a bufs fs sch in
     match st with
-    | SOk => let '(q, st2, fs2, r2) := quit_loop_l now all bang lk bufs1 fs' r in (q, st2, bufs1, fs2, r2)
+    | SOk => let '(q, st2, fs2, r2) := quit_loop_l now all bang lk bufs1 fs' r in (q, st2, quit_marks_l now all bang lk bufs1 fs' r, fs2, r2)
     | _ => (false, st, bufs, fs', r)
     end
-  else let '(q, st2, fs2, r2) := quit_loop_l now all bang lk bufs fs sch in (q, st2, bufs, fs2, r2).
+  else let '(q, st2, fs2, r2) := quit_loop_l now all bang lk bufs fs sch in (q, st2, quit_marks_l now all bang lk bufs fs sch, fs2, r2).
 
 (* ec_edit(loc, cmd, arg) for e / e! with "", %, #, name (xwa off):
    - without `!` a modified current buffer refuses ("buffer modified");
